@@ -944,17 +944,23 @@ class Crystal(object):
         modified = False
         # check the possible vector reductions (edited to handle 2 and 3 dimensions)
         asq = np.dot(self.lattice.T, self.lattice)
-        u = np.around(asq[0, 1] / asq[0, 0])
+
+        def nearest(ratio):
+            # a ratio of +-1/2 (up to roundoff) means no shortening is possible: rounding it either way
+            # lets roundoff send the recursion back and forth forever
+            return 0 if abs(abs(ratio) - 0.5) < 1e-8 else np.around(ratio)
+
+        u = nearest(asq[0, 1] / asq[0, 0])
         if u != 0:
             super[0, 1] = -int(u)
             modified = True
         elif self.dim > 2:
-            u = np.around(asq[0, 2] / asq[0, 0])
+            u = nearest(asq[0, 2] / asq[0, 0])
             if u != 0:
                 super[0, 2] = -int(u)
                 modified = True
             else:
-                u = np.around(asq[1, 2] / asq[1, 1])
+                u = nearest(asq[1, 2] / asq[1, 1])
                 if u != 0:
                     super[1, 2] = -int(u)
                     modified = True
